@@ -230,6 +230,14 @@ def check_database(ctx, path, case, specs, res):
             common.fail(res, case, "db_dialect_differs",
                         "FeatureDB.dialect differs from the inferred dialect (or changes on "
                         "reopen)", db=d1, reopened=d2, iterator=it.dialect)
+        # the stored dialect is plain ASCII text, so it reads back the same whatever decoder the documented text_factory
+        # argument installs for TEXT values (attribute keys may be non-ASCII)
+        for tf_name, tf in (("latin-1", lambda b: b.decode("latin-1")), ("ascii/replace", lambda b: b.decode("ascii", "replace"))):
+            d3 = gffutils.FeatureDB(dbp, text_factory=tf).dialect
+            if d3 != it.dialect:
+                common.fail(res, case, "db_dialect_differs",
+                            "FeatureDB(text_factory=%s decoder).dialect differs from the inferred dialect of the input" % tf_name,
+                            reopened=d3, iterator=it.dialect)
         derived = [f for f in db.all_features() if f.source == "gffutils_derived"]
         rels = set(dbside.rels_of(db))
         if fmt == "gtf":
@@ -422,6 +430,12 @@ def judge(ctx, case):
     elif sc == "mixture":
         if len(case["input"]) == len(case["votes"]):
             check_mixture(write_file(ctx, "j_" + case["file_name"], case["input"]), case, res)
+    elif sc == "inner_semicolon":
+        got, want = helpers.infer_dialect(case["input"]), helpers.infer_dialect(case["twin"])
+        res.evaluations += 1
+        if got != want:
+            common.fail(res, case, "infer_dialect_wrong", "infer_dialect does not state the dialect the line was written in "
+                        "(a quoted value contains a semicolon)", attributes=case["input"], expected=want, observed=got)
     elif sc == "update_gtf_db":
         check_update_gtf_db(ctx, case, res)
     elif sc == "update_gff3_db":
@@ -456,6 +470,32 @@ def run(ctx):
         res.nontriv(("line", attr))
         if row:
             cmds.append(pyside.cmd_split(attr)); exp.append(pyside.impl_split(attr)); tags.append(("infer_dialect", attr))
+
+    # (a') quoted values that CONTAIN a semicolon, in the '; ' / ' ; ' separated styles: the separator of the line is still
+    #      the one that separates its fields (a ';' inside a value is not followed / surrounded by a blank).  Judged against
+    #      the twin line whose values have no semicolon: same keys, same notation - the same dialect must be reported
+    ri = ctx.rng("c09", "semicolons inside quoted values")
+    for i in range(300 if not ctx.thorough else 3000):
+        sep = ri.choice(["; ", " ; "])
+        keys = ri.sample(["gene_id", "transcript_id", "note", "exon_number", "tag", "db_xref"], ri.randrange(2, 5))
+        inner = [ri.choice(["fam7;1", "a;b", ";x", "p;q;r", "GO:1;GO:2", "x;", "plain", "k=v;w"]) for _ in keys]
+        if not any(";" in v for v in inner):
+            inner[0] = "fam7;1"
+        trailing = ri.random() < 0.6
+        mk = lambda vals: sep.join('%s "%s"' % (k, v) for k, v in zip(keys, vals)) + (";" if trailing else "")
+        attr, twin = mk(inner), mk([v.replace(";", "_") for v in inner])
+        res.evaluations += 1
+        res.count("inner_semicolon_in_quoted_value_sep_%r" % sep)
+        try:
+            got, want = helpers.infer_dialect(attr), helpers.infer_dialect(twin)
+        except Exception as ex:
+            got, want = "raised %r" % ex, None
+        if got != want:
+            common.fail(res, {"scenario": "inner_semicolon", "input": attr, "twin": twin, "no_shrink": True},
+                        "infer_dialect_wrong",
+                        "infer_dialect does not state the dialect the line was written in (a quoted value contains a "
+                        "semicolon)", attributes=attr, expected=want, observed=got)
+        cmds.append(pyside.cmd_split(attr)); exp.append(pyside.impl_split(attr)); tags.append(("infer_dialect", attr))
 
     # (b) weighted vote -------------------------------------------------------------------------------
     alt = ALT
